@@ -26,9 +26,15 @@ Definition model_fn (tab : list (N * N)) (aliases : list (str * pty)) (dss : lis
   | inr ds => ObsCalls (map (fun cl => call pinst (btab_inst tab) ds (fst cl) (snd cl)) calls)
   end.
 
+(* Projection of the builder's panics: the two complaints about the ORDER of the parameters (required after
+   optional / anything after repeated) are one class — which of the two tests fires first when both apply
+   (e.g. Param after OptionalParam; RepeatedParam) is not part of the property. *)
+Definition pclass (c : pcode) : pcode :=
+  match c with PAfterRepeated => PReqAfterOpt | c' => c' end.
+
 Definition fnobs_eqb (a b : fnobs) : bool :=
   match a, b with
-  | ObsPanic i c, ObsPanic j d => Nat.eqb i j && pcode_eqb c d
+  | ObsPanic i c, ObsPanic j d => Nat.eqb i j && pcode_eqb (pclass c) (pclass d)
   | ObsCalls r, ObsCalls s => list_eqb callres_eqb r s
   | _, _ => false
   end.
@@ -90,3 +96,12 @@ Definition inst_check (aliases : list (str * pty)) (c : pty * pval * bool) : boo
 
 Definition inst_mismatches (aliases : list (str * pty)) (cs : list (pty * pval * bool)) : list N :=
   failing (inst_check aliases) cs.
+
+(* ---- new with the constructors that are modelled end to end (no oracle): receiver Boolean -------------- *)
+Definition is_modelled_recv (t : pty) : bool := match t with PBoolean => true | _ => false end.
+
+Definition new_modelled_check (c : newcase) : bool :=
+  let '(t, args, raw, obs) := c in
+  if is_modelled_recv t then outcome_eqb (pnew_modelled t args) obs else true.
+
+Definition new_modelled_mismatches (cs : list newcase) : list N := failing new_modelled_check cs.
